@@ -479,8 +479,10 @@ fn worker(cfg: &Cfg) -> Outcome {
         let mut l = Local::new();
         l.sample_cap = 3;
         let mut idx = from;
+        let stop_after: f64 = cfg2.opt("--stop-after").and_then(|s| s.parse().ok()).unwrap_or(f64::MAX);
+        let worker_start = std::time::Instant::now();
         let mut pf = std::fs::OpenOptions::new().create(true).write(true).truncate(true).open(&progress).expect("progress file");
-        while idx < to {
+        while idx < to && worker_start.elapsed().as_secs_f64() < stop_after {
             let mut rng = Rng::derive(cfg2.seed, 5, idx);
             let target = match &only_target { Some(t) => t.as_str().to_string(), None => TARGETS[(rng.next_u64() % TARGETS.len() as u64) as usize].to_string() };
             // the rare, expensive targets are thinned out
@@ -608,6 +610,9 @@ pub fn run(cfg: &Cfg) -> Outcome {
                     cmd.env("GLIBC_TUNABLES", "glibc.malloc.hugetlb=1");
                     cmd.args(["C05", "--worker", "--seed", &cfg.seed.to_string(), "--out", &cfg.out, "--result", &res, "--from", &from.to_string(), "--to", &slice_to.to_string(), "--step", &nworkers.to_string(), "--progress", &progress]);
                     if allow_huge { cmd.arg("--allow-huge"); }
+                    // the worker stops taking new cases when the wall budget of the run is used up
+                    let remaining = wall.saturating_sub(start.elapsed()).as_secs_f64().max(1.0);
+                    cmd.args(["--stop-after", &format!("{:.0}", remaining)]);
                     let out = cmd.stderr(std::process::Stdio::piped()).stdout(std::process::Stdio::null()).output();
                     let Ok(out) = out else { l.note("could not spawn worker"); break };
                     if out.status.success() {
@@ -657,6 +662,11 @@ pub fn run(cfg: &Cfg) -> Outcome {
     let mut cands = hang_candidates.lock().unwrap().clone();
     cands.sort();
     cands.dedup();
+    if cands.len() > 6 {
+        total_local.note(format!("{} hang candidates; only the first 6 are re-run alone, the rest stay unjudged", cands.len()));
+        total_local.count("hang_candidates_not_rerun", cands.len() as u64 - 6);
+        cands.truncate(6);
+    }
     for (case, target, gen) in cands {
         // calibrate immediately before: the budget of the isolated re-run is at least ten times the
         // present cost of filling 4 GiB (a case performs at most a handful of such fills)
@@ -692,7 +702,8 @@ pub fn run(cfg: &Cfg) -> Outcome {
         total_local,
         "seeded structure-aware mutation of valid files (G-DS in 4 syntaxes; images: native, encapsulated uncompressed, deflated frame, JPEG from the repository's encoders, hand-made RLE), data set streams, JSON documents, PDUs and strings; 14 entry-point targets (from_reader ± preamble, OpenFileOptions variants, FileMetaTable, DataSetReader × TS × flexible × value strategies × odd-length strategies, lazy reader with skip/into_owned, collector operations in random order, JSON from_str/from_slice/from_value, read_pdu strict/non-strict at 5 maxima, read_pdu_from_wire, pixel decoding whole/per frame/to_vec/to_dynamic_image, dump in text and JSON, tag/selector/date/time/range parsers, deep nesting, declared lengths near 2^32); each case in a worker subprocess on an 8 MiB-stack thread: panic = violation, abnormal process exit = violation attributed to the in-flight case, thread CPU time over the budget (60 s, and 120 s again when the case is re-run alone) = violation; SIGKILL and wall watchdog = inconclusive; class = (target, seed kind + mutator)",
     );
-    o.min_evaluations = 5_000;
+    // floors against a vacuous run; low enough for a heavily loaded machine
+    o.min_evaluations = if cfg.thorough() { 20_000 } else { 1_500 };
     o.min_classes = 60;
     o
 }
